@@ -183,6 +183,31 @@ theorem values_partial_sheet (text : Cps) (doC : Bool) (a : List Item) (it : Ite
     · cases hv
   · cases hf
 
+/- Full-strength reading of T5.4 for STRING / INVALID tokens (decoding decided on the source text, in one pass):
+     it.typ ∈ cleanTypes → it.value = stringValue it.found
+   It fails (known finding C05-clean-decoded-newline): `cleanstring` runs on the decoded text, so a newline that was
+   written as a hex escape is removed together with a backslash that precedes it in the DECODED text — the second
+   half of an escaped backslash, or the backslash of a continuation backslash-CR followed by an escaped LF. -/
+
+/-- **known finding C05-clean-decoded-newline** (machine-checked): the STRING `"\\\a "` (quote, escaped backslash,
+hex escape of LF with terminator, quote) denotes backslash + line feed, `stringValue` says so, but the token's value is
+`"\"` — quote, backslash, quote: the value's closing quote now reads as escaped. -/
+theorem clean_decoded_newline_witness :
+    (tokenize [0x22, 0x5C, 0x5C, 0x5C, 0x61, 0x20, 0x22] false true).tokens.map (fun t => (t.typ, t.value)) =
+      [("STRING", [0x22, 0x5C, 0x22])] ∧
+    stringValue [0x22, 0x5C, 0x5C, 0x5C, 0x61, 0x20, 0x22] = [0x22, 0x5C, 0x5C, 0x0A, 0x22] ∧
+    tokenValue "STRING" [0x22, 0x5C, 0x5C, 0x5C, 0x61, 0x20, 0x22] = [0x22, 0x5C, 0x22] := by
+  refine ⟨by decide +kernel, by decide +kernel, by decide +kernel⟩
+
+/-- the second shape of the same finding: continuation backslash-CR, then a hex-escaped LF -/
+example : stringValue [0x22, 0x5C, 0x0D, 0x5C, 0x61, 0x20, 0x22] = [0x22, 0x0A, 0x22] ∧
+    tokenValue "STRING" [0x22, 0x5C, 0x0D, 0x5C, 0x61, 0x20, 0x22] = [0x22, 0x22] := by
+  constructor <;> decide +kernel
+
+/-- outside the region the two readings agree, e.g. `"a\<LF>b\41 "` -/
+example : stringValue [0x22, 0x61, 0x5C, 0x0A, 0x62, 0x5C, 0x34, 0x31, 0x20, 0x22] =
+    tokenValue "STRING" [0x22, 0x61, 0x5C, 0x0A, 0x62, 0x5C, 0x34, 0x31, 0x20, 0x22] := by decide +kernel
+
 /-! ## T5.5 error reports -/
 
 /-- **T5.5**: the report built from a token carries that token's line and column, as attributes and in the
